@@ -6,7 +6,7 @@
     and its goroutine snapshots r.middlewares), handler.run (l.627-651: the reverse wrapping loop with the
     filter IsRouterLevel || HandlerName == h.name), decorateHandlerPublisher (reverse loop) /
     decorateHandlerSubscriber (context decorator first, then a forward loop) (l.706-746),
-    addHandlerContext (l.749-770: empty values are NOT set), handleMessage / publishProducedMessages
+    addHandlerContext (l.749-770), handleMessage / publishProducedMessages
     (l.787-848) and message/router_context.go (the five accessors; a key that is not set reads as "").
 
     The per-message settlement is NOT re-modelled: it is [handle] of Handler/RouterHandle.v (C02).
@@ -103,9 +103,17 @@ Inductive ev :=
 | EPublish (p : N) (topic : N) (outs : list omsg)  (* Publish on publisher object p; each message with its context values *)
 | ESettle (ack : bool).                            (* final settlement of the consumed copy *)
 
-(** addHandlerContext: a non-empty value overrides, an empty one leaves what was there *)
+(** addHandlerContext.  REPAIRED behaviour (fix commit on message/router.go): all five keys are set
+    unconditionally, so whatever router keys the message context carried before are shadowed. *)
+Definition ctx_of (h : hcfg) : ctxv :=
+  CX (h_name h) (pub_ty (h_pub h)) (h_subty h) (h_subtopic h) (h_pubtopic h).
+Definition overlay (c : ctxv) (h : hcfg) : ctxv := ctx_of h.
+
+(** PINNED behaviour (before the fix): a key was set only when the handler's value is non-empty, so
+    for an empty value (publish topic of a no-publisher handler, empty names/topics) a value already
+    present on a re-delivered object survived.  Kept for the refutation witness in Props/C08.v. *)
 Definition ov (old new : N) : N := if N.eqb new 0 then old else new.
-Definition overlay (c : ctxv) (h : hcfg) : ctxv :=
+Definition overlay_pinned (c : ctxv) (h : hcfg) : ctxv :=
   CX (ov (c_handler c) (h_name h)) (ov (c_pubname c) (pub_ty (h_pub h))) (ov (c_subname c) (h_subty h))
      (ov (c_subtopic c) (h_subtopic h)) (ov (c_pubtopic c) (h_pubtopic h)).
 
